@@ -65,6 +65,12 @@ pub enum Mut {
     Keyword(u16, u8),
     /// make the idx-th number equal to the value of another number in the file (offset → another object, itself …)
     NumberCopy(u16, u16),
+    /// cross-reference links (the numbers after /Prev, /XRefStm and startxref): the a-th link gets the value of the
+    /// b-th one — or 0 / the file length / its own position — which produces Prev rings, self loops and wild offsets
+    XrefLink(u16, u16, u8),
+    /// the a-th indirect reference `n g R` is pointed at the object number of the b-th `n g obj` header (or of
+    /// another reference): Length -> itself, Kids/Parent rings, references into object streams
+    RefRetarget(u16, u16),
 }
 
 fn pos(p: u16, len: usize) -> usize {
@@ -103,6 +109,57 @@ fn keyword_occurrences(b: &[u8]) -> Vec<(usize, usize)> {
     }
     out.sort();
     out
+}
+
+/// (start, end) of the number that follows each /Prev, /XRefStm or startxref keyword
+fn link_numbers(b: &[u8]) -> Vec<(usize, usize)> {
+    let mut out = vec![];
+    for kw in [&b"/Prev"[..], b"/XRefStm", b"startxref"] {
+        let mut i = 0;
+        while i + kw.len() <= b.len() {
+            if &b[i..i + kw.len()] == kw {
+                let mut j = i + kw.len();
+                while j < b.len() && (b[j] == b' ' || b[j] == b'\n' || b[j] == b'\r' || b[j] == b'\t') {
+                    j += 1;
+                }
+                let s = j;
+                while j < b.len() && b[j].is_ascii_digit() {
+                    j += 1;
+                }
+                if j > s {
+                    out.push((s, j));
+                }
+                i = j.max(i + 1);
+            } else {
+                i += 1;
+            }
+        }
+    }
+    out.sort();
+    out
+}
+
+/// (start, end) of the object number of every `n g R` reference and of every `n g obj` header
+fn ref_numbers(b: &[u8]) -> (Vec<(usize, usize)>, Vec<(usize, usize)>) {
+    let toks = number_tokens(b);
+    let mut refs = vec![];
+    let mut heads = vec![];
+    for w in toks.windows(2) {
+        let (a, c) = (w[0], w[1]);
+        // "n<ws>g<ws>R" / "n<ws>g<ws>obj"
+        if b[a.1..c.0].iter().all(|x| *x == b' ' || *x == b'\n' || *x == b'\r') && c.0 > a.1 {
+            let mut j = c.1;
+            while j < b.len() && (b[j] == b' ' || b[j] == b'\n' || b[j] == b'\r') {
+                j += 1;
+            }
+            if j > c.1 && b[j..].starts_with(b"R") && !b.get(j + 1).map(|x| x.is_ascii_alphanumeric()).unwrap_or(false) {
+                refs.push(a);
+            } else if j > c.1 && b[j..].starts_with(b"obj") {
+                heads.push(a);
+            }
+        }
+    }
+    (refs, heads)
 }
 
 pub fn apply(mut b: Vec<u8>, muts: &[Mut]) -> Vec<u8> {
@@ -161,6 +218,36 @@ pub fn apply(mut b: Vec<u8>, muts: &[Mut]) -> Vec<u8> {
                     b.splice(s..e, rep);
                 }
             }
+            Mut::XrefLink(a, src, mode) => {
+                let links = link_numbers(&b);
+                if !links.is_empty() {
+                    let (s, e) = links[(*a as usize * links.len()) >> 16];
+                    let rep: Vec<u8> = match mode % 6 {
+                        0 | 1 | 2 => {
+                            let (s2, e2) = links[(*src as usize * links.len()) >> 16];
+                            b[s2..e2].to_vec()
+                        }
+                        3 => b"0".to_vec(),
+                        4 => b.len().to_string().into_bytes(),
+                        _ => {
+                            // the offset of the section this link sits in: search backwards for "xref" / an object header
+                            let sec = b[..s].windows(4).rposition(|w| w == b"xref").unwrap_or(0);
+                            sec.to_string().into_bytes()
+                        }
+                    };
+                    b.splice(s..e, rep);
+                }
+            }
+            Mut::RefRetarget(a, src) => {
+                let (refs, heads) = ref_numbers(&b);
+                if !refs.is_empty() {
+                    let (s, e) = refs[(*a as usize * refs.len()) >> 16];
+                    let pool: Vec<(usize, usize)> = heads.iter().chain(refs.iter()).cloned().collect();
+                    let (s2, e2) = pool[(*src as usize * pool.len()) >> 16];
+                    let rep = b[s2..e2].to_vec();
+                    b.splice(s..e, rep);
+                }
+            }
             Mut::Keyword(idx, k) => {
                 let occ = keyword_occurrences(&b);
                 if !occ.is_empty() {
@@ -188,6 +275,8 @@ pub fn mut_strategy() -> BoxedStrategy<Mut> {
         6 => (any::<u16>(), any::<u8>()).prop_map(|(i, v)| Mut::Number(i, v)),
         3 => (any::<u16>(), any::<u16>()).prop_map(|(i, s)| Mut::NumberCopy(i, s)),
         3 => (any::<u16>(), any::<u8>()).prop_map(|(i, k)| Mut::Keyword(i, k)),
+        4 => (any::<u16>(), any::<u16>(), any::<u8>()).prop_map(|(a, b, m)| Mut::XrefLink(a, b, m)),
+        3 => (any::<u16>(), any::<u16>()).prop_map(|(a, b)| Mut::RefRetarget(a, b)),
     ]
     .boxed()
 }
